@@ -24,7 +24,7 @@ from hpstatic.interp import Interp, expr_term
 from hpstatic.loader import AnalysisError
 from hpstatic.poly import Canon
 from hpstatic.terms import (sym, intern, show, subterms, calls_in, NONE, num, kw)
-from .common import SCATTERER
+from .common import SCATTERER, as_difference, is_sum
 
 MUTATION_TARGETS = {'holopy/core/math.py': ['rotation_matrix', 'rotate_points', 'transform_cartesian_to_spherical', 'transform_spherical_to_cartesian', 'transform_cartesian_to_cylindrical', 'transform_cylindrical_to_cartesian', 'transform_cylindrical_to_spherical', 'transform_spherical_to_cylindrical', 'find_transformation_function'], 'holopy/scattering/scatterer/composite.py': ['rotated', 'translated'], 'holopy/scattering/scatterer/scatterer.py': ['translated'], 'holopy/scattering/scatterer/csg.py': ['rotated']}
 
@@ -361,7 +361,7 @@ def composites(check, prog, canon):
             okc = comp[3][0][1] == ('attr', sym('self'), 'scatterers') and \
                 comp[2] == ('attr', comp[3][0][0], 'center')
             com = intern(('call', ('attr', cen, 'mean'), (num(0),), ()))
-            okd = c[2][0] == ('bin', '-', cen, com)
+            okd = as_difference(c[2][0]) == (cen, com)
             # enclosing sum: com + rotate_points(...)
             enc = [x for x in subterms(v) if x[0] == 'bin' and x[1] == '+' and
                    (x[2] == com and x[3] == c or x[3] == com and x[2] == c)]
@@ -419,9 +419,10 @@ def composites(check, prog, canon):
             arg = tc[2][0]
             arg = arg[1] if arg[0] == 'star' else arg
             # displacement must be (something containing rotate_points) - (old)
-            okd = arg[0] == 'bin' and arg[1] == '-' and \
-                bool(calls_in(arg[2], MATH + 'rotate_points')) and \
-                not calls_in(arg[3], MATH + 'rotate_points')
+            df = as_difference(arg)
+            okd = df is not None and \
+                bool(calls_in(df[0], MATH + 'rotate_points')) and \
+                not calls_in(df[1], MATH + 'rotate_points')
             why = 'displacement is %s' % show(arg)[:160]
         short = cq.rpartition('.')[2]
         check.require(okd, 'M6-rigid-rotation', '%s.rotated displacement' % short,
@@ -450,8 +451,25 @@ def composites(check, prog, canon):
     res = it.analyze(q)
     st = [e for e in it.effects if e['kind'] == 'setattr' and e['attr'] == 'center']
     ok = len(st) == 1 and st[0]['value'][0] == 'bin' and st[0]['value'][1] == '+' and \
-        st[0]['value'][2] == ('attr', sym('self'), 'center') and \
-        st[0]['base'] == ('copy', 'shallow', sym('self'))
+        intern(('attr', sym('self'), 'center')) in (st[0]['value'][2], st[0]['value'][3]) \
+        and st[0]['base'] == ('copy', 'shallow', sym('self'))
+    if ok:
+        ctr = intern(('attr', sym('self'), 'center'))
+        vec = st[0]['value'][3] if st[0]['value'][2] == ctr else st[0]['value'][2]
+        names = [a.arg for a in fd.args.args[1:4]]
+        v1 = intern(('call', 'holopy.core.utils.ensure_array', (sym(names[0]),), ()))
+        v3 = intern(('call', 'numpy.array',
+                     (('list', tuple(sym(n) for n in names)),), ()))
+        branches = set()
+
+        def leaves(t):
+            if t[0] == 'ite':
+                leaves(t[2])
+                leaves(t[3])
+            elif t[0] not in ('raise', 'unk') and not str(t[1]).startswith('unbound:'):
+                branches.add(t)
+        leaves(vec)
+        ok = branches == {v1, v3}
     check.require(ok, 'M6-rigid-translation', 'Scatterer.translated',
                   'a copy whose centre is the old centre plus the vector',
                   prog.loc(q, fd))
